@@ -883,6 +883,254 @@ pub fn gen_wide_opts(rng: &mut Rng, kind: usize, fixed: Option<usize>, canonical
     m
 }
 
+// ---------------------------------------------------------------------------------------------
+// "placed" family: the same abstract models stored with another placement of the vertex streams
+// (`Spec/MdlPlaced.lean`, op `placed`).  `Spec.Mdl.encodeMdl` — like the library's writer — stores
+// the streams of a mesh back to back, mesh after mesh, every section right behind the previous
+// one; the format addresses every stream through `vertex_buffer_offsets[stream]` and every section
+// through its own offset, so a reader that relies on the back-to-back order is wrong on files
+// this family produces.  Recipe grammar: `Driver/C06.lean`.
+// ---------------------------------------------------------------------------------------------
+pub const PLACED_KINDS: usize = 11;
+
+/// every supported pair except (BlendWeights, Byte4), the class of the recorded finding
+const PLACED_COMBOS: &[(u8, u8, u8)] = &[
+    (0, 3, 16), (0, 14, 8), (0, 2, 12), (1, 8, 4), (1, 17, 8), (2, 5, 4), (2, 17, 8), (3, 14, 8), (3, 2, 12),
+    (4, 8, 4), (4, 14, 8), (4, 3, 16), (4, 13, 4), (6, 8, 4), (5, 8, 0), (7, 8, 4),
+];
+
+fn rbytes(rng: &mut Rng, lo: u64, hi: u64) -> Vec<u8> {
+    let n = rng.range(lo, hi) as usize;
+    rng.bytes(n)
+}
+
+fn shuffle<T>(rng: &mut Rng, v: &mut Vec<T>) {
+    for i in (1..v.len()).rev() {
+        let j = rng.below(i as u64 + 1) as usize;
+        v.swap(i, j);
+    }
+}
+
+/// the recipe of one LOD: `<vpre>;<ipre>;<items>`
+fn lay_lod(rng: &mut Rng, kind: usize, lod: &GLod, alias_last: bool) -> String {
+    let n = lod.meshes.len();
+    // the streams that get bytes of their own (an aliased last mesh shares those of mesh 0)
+    let own = if alias_last { n - 1 } else { n };
+    let mut all: Vec<(usize, usize)> = Vec::new();
+    for d in 0..own {
+        for j in 0..lod.meshes[d].streams.len() {
+            all.push((d, j));
+        }
+    }
+    let len_of = |d: usize, j: usize| lod.meshes[d].streams[j].1.len();
+    let mut items: Vec<String> = Vec::new();
+    let mut cur = 0usize; // bytes stored so far
+    let mut vpre: Vec<u8> = vec![];
+    let mut ipre: Vec<u8> = vec![];
+    let mut put = |items: &mut Vec<String>, cur: &mut usize, d: usize, j: usize| {
+        items.push(format!("s{}.{}", d, j));
+        *cur += len_of(d, j);
+    };
+    let gap = |rng: &mut Rng, items: &mut Vec<String>, cur: &mut usize, n: usize| {
+        if n > 0 {
+            items.push(format!("g{}", hex(&rng.bytes(n))));
+            *cur += n;
+        }
+    };
+    match kind {
+        0 => {
+            // stream-major: [m0 s0][m1 s0]…[m0 s1][m1 s1]…
+            for j in 0..3 {
+                for d in 0..own {
+                    if j < lod.meshes[d].streams.len() {
+                        put(&mut items, &mut cur, d, j);
+                    }
+                }
+            }
+        }
+        1 => {
+            // mesh-major, every stream aligned to 16 bytes (padding only where needed, but at least
+            // once per mesh with two streams)
+            for &(d, j) in &all {
+                let mut padn = (16 - cur % 16) % 16;
+                if j == 1 && padn == 0 {
+                    padn = 16;
+                }
+                if j > 0 || rng.chance(1, 2) {
+                    gap(rng, &mut items, &mut cur, padn);
+                }
+                put(&mut items, &mut cur, d, j);
+            }
+        }
+        2 => {
+            // streams of every mesh in reverse order
+            for d in 0..own {
+                for j in (0..lod.meshes[d].streams.len()).rev() {
+                    put(&mut items, &mut cur, d, j);
+                }
+            }
+        }
+        3 => {
+            for &(d, j) in all.iter().rev() {
+                put(&mut items, &mut cur, d, j);
+            }
+        }
+        4 | 8 => {
+            let mut order = all.clone();
+            shuffle(rng, &mut order);
+            if rng.chance(1, 2) {
+                let k = rng.range(1, 9) as usize;
+                gap(rng, &mut items, &mut cur, k);
+            }
+            for &(d, j) in &order {
+                put(&mut items, &mut cur, d, j);
+                if rng.chance(1, 2) {
+                    let k = rng.range(1, 9) as usize;
+                    gap(rng, &mut items, &mut cur, k);
+                }
+            }
+            if kind == 8 {
+                vpre = rbytes(rng, 0, 19);
+                ipre = rbytes(rng, 0, 49);
+            }
+        }
+        5 => {
+            // back to back, but the sections do not touch: bytes in front of the vertex section and
+            // between the vertex and the index section (where edge geometry data lives)
+            for &(d, j) in &all {
+                put(&mut items, &mut cur, d, j);
+            }
+            match rng.below(3) {
+                0 => vpre = rbytes(rng, 1, 16),
+                1 => ipre = rbytes(rng, 1, 40),
+                _ => {
+                    vpre = rbytes(rng, 1, 16);
+                    ipre = rbytes(rng, 1, 40);
+                }
+            }
+        }
+        9 => {
+            // the smallest deviation: one byte between stream 0 and stream 1 of the first mesh
+            for &(d, j) in &all {
+                if d == 0 && j == 1 {
+                    gap(rng, &mut items, &mut cur, 1);
+                }
+                put(&mut items, &mut cur, d, j);
+            }
+        }
+        10 => {
+            // nothing but a leading gap: the first stream of the first mesh is not at offset 0
+            let k = rng.range(1, 20) as usize;
+            gap(rng, &mut items, &mut cur, k);
+            for &(d, j) in &all {
+                put(&mut items, &mut cur, d, j);
+            }
+        }
+        _ => {
+            // 6 (alias, see below) and 7 (control): back to back
+            for &(d, j) in &all {
+                put(&mut items, &mut cur, d, j);
+            }
+        }
+    }
+    if alias_last {
+        for j in 0..lod.meshes[n - 1].streams.len() {
+            items.push(format!("a{}.{}.0.{}", n - 1, j, j));
+        }
+    }
+    format!("{};{};{}", hex(&vpre), hex(&ipre), join_or_dash(items, ","))
+}
+
+/// a model whose first LOD has 2..4 meshes with at least two non-empty streams each, and the
+/// recipe (`lay=…`) that places its streams according to `kind`
+pub fn gen_placed(rng: &mut Rng, kind: usize, max_vertices: usize) -> (GModel, String) {
+    let o = GenOpts { max_meshes: 3, max_vertices, combos: PLACED_COMBOS, v5_only: false, canonical: false };
+    let mut m = gen_model(rng, &o);
+    for l in [&mut m.attrs, &mut m.bones, &mut m.mats] {
+        if l.len() == 1 && l[0].is_empty() {
+            l[0] = vec![b'x'];
+        }
+    }
+    let nm = rng.range(2, 4) as usize;
+    let mut meshes = Vec::new();
+    let mut start = 0usize;
+    for _ in 0..nm {
+        let mesh = loop {
+            let x = gen_mesh(rng, &o, start);
+            if x.streams.len() >= 2 && x.vcount > 0 && x.streams.iter().all(|s| s.0 > 0) && x.indices.len() < 4000 {
+                break x;
+            }
+        };
+        start += mesh.indices.len() + mesh.index_pad;
+        meshes.push(mesh);
+    }
+    let mut alias_last = false;
+    if kind == 6 {
+        // a further mesh that shares the vertex streams of the first one (its own indices)
+        let mut c = meshes[0].clone();
+        let nidx = rng.below(3 * c.vcount as u64 + 1) as usize;
+        c.indices = (0..nidx).map(|_| rng.below(c.vcount as u64) as u16).collect();
+        c.index_pad = rng.below(4) as usize;
+        c.subs = vec![GSub { off: start as u32, count: nidx as u32, mask: 0, bstart: 0, bcount: 0 }];
+        meshes.push(c);
+        alias_last = true;
+    }
+    m.lods[0].meshes = meshes;
+    // the random shapes of `gen_model` referred to the meshes just replaced
+    m.shapes.clear();
+    m.shm.clear();
+    m.shv.clear();
+    let first = &m.lods[0].meshes[0];
+    if first.indices.iter().any(|&i| i < first.vcount) && rng.chance(2, 3) {
+        for _ in 0..rng.range(1, 2) {
+            let nshm = rng.range(1, 2) as usize;
+            let nval = rng.range(1, 3) as usize;
+            push_good_shape(rng, &mut m, nshm, nval);
+        }
+    }
+    let lays: Vec<String> = (0..3)
+        .map(|l| {
+            // further LODs: the same strategy (kind 6 aliases only in LOD 0)
+            let k = if kind == 6 && l > 0 { 7 } else { kind };
+            lay_lod(rng, k, &m.lods[l], alias_last && l == 0)
+        })
+        .collect();
+    (m, format!("lay={}", lays.join("|")))
+}
+
+/// the layout of the seed's demonstration, fixed: two meshes with two streams each (Position
+/// Single3 in stream 0, UV Half4 + Color in stream 1), stored stream-major
+fn placed_fixed(rng: &mut Rng, recipe: &str) -> (GModel, String) {
+    // `recipe`: the whole recipe of LOD 0 (`<vpre>;<ipre>;<items>`)
+    let mut m = single_stream_model(vec![], 0, 0, vec![]);
+    m.lods[0].meshes.clear();
+    let mut start = 0usize;
+    for k in 0..2usize {
+        let vcount = 3 + k;
+        let decl = vec![
+            GElem { stream: 0, offset: 0, ty: 2, usage: 0, uidx: 0 },
+            GElem { stream: 1, offset: 0, ty: 14, usage: 4, uidx: 0 },
+            GElem { stream: 1, offset: 8, ty: 8, usage: 7, uidx: 0 },
+        ];
+        let streams = vec![(12u8, fill_stream(rng, 12 * vcount, true)), (12u8, fill_stream(rng, 12 * vcount, true))];
+        let indices: Vec<u16> = (0..3 * (k + 1)).map(|i| (i % vcount) as u16).collect();
+        let n = indices.len();
+        m.lods[0].meshes.push(GMesh {
+            vcount: vcount as u16,
+            material: 0,
+            bonetable: 0,
+            index_pad: 0,
+            decl,
+            streams,
+            indices,
+            subs: vec![GSub { off: start as u32, count: n as u32, mask: 0, bstart: 0, bcount: 0 }],
+        });
+        start += n;
+    }
+    m.mats = vec![b"/m.mtrl".to_vec()];
+    (m, format!("lay={}|-;-;-|-;-;-", recipe))
+}
+
 /// a model whose only mesh carries `data` (vcount × stride bytes) in stream 0 under `decl`
 pub fn single_stream_model(decl: Vec<GElem>, stride: u8, vcount: u16, data: Vec<u8>) -> GModel {
     let mut m = GModel::default();
@@ -977,6 +1225,25 @@ pub fn generate(thorough: bool, seed: u64, out: &mut dyn Write) {
             let fixed = if round == 0 && !thorough && kind != 9 && kind < 12 { Some(*rng.pick(&[256usize, 257, 300])) } else { None };
             let m = gen_wide(&mut rng, kind, fixed);
             writeln!(out, "parse {}", m.tokens()).unwrap();
+        }
+    }
+    // placed streams (see `gen_placed`): the fixed two-mesh / two-stream model stream-major, with
+    // one byte of padding, reversed, with detached sections and back to back (control) on every
+    // run; every kind 3 times per run (thorough: 250 times)
+    for recipe in [
+        "-;-;s0.0,s1.0,s0.1,s1.1",
+        "-;-;s0.0,g00,s0.1,s1.0,s1.1",
+        "-;-;s1.1,s1.0,s0.1,s0.0",
+        "aa;bbccdd;s0.0,s0.1,s1.0,s1.1",
+        "-;-;s0.0,s0.1,s1.0,s1.1",
+    ] {
+        let (m, lay) = placed_fixed(&mut rng, recipe);
+        writeln!(out, "placed {} {}", lay, m.tokens()).unwrap();
+    }
+    for round in 0..if thorough { 250 } else { 3 } {
+        for kind in 0..PLACED_KINDS {
+            let (m, lay) = gen_placed(&mut rng, kind, if thorough && round % 10 == 0 { 400 } else { 40 });
+            writeln!(out, "placed {} {}", lay, m.tokens()).unwrap();
         }
     }
 }
